@@ -7,7 +7,7 @@ import shutil
 import sys
 import tempfile
 
-from core import Check, HarnessError, run_check, watchdog
+from core import tool, Check, HarnessError, run_check, watchdog
 import gen
 
 
@@ -96,7 +96,7 @@ class SortRun:
                 os.remove(f)
         try:
             with watchdog(60):
-                gsort.run_sort(gfa=gfa, gaf=inp, outgaf=out, outind=ind, bgzip=bool(bg_out))
+                tool("sort", gfa=gfa, gaf=inp, outgaf=out, outind=ind, bgzip=bool(bg_out))
         except BaseException as e:  # noqa
             return {"outcome": "crash", "exc": type(e).__name__ + ": " + str(e)[:200]}
         offs, olines = gen.record_offsets(out)
